@@ -17,7 +17,12 @@ through completely.  User code that gets hold of objects whose constructor is st
 postponed (callback, scope provider, model processor of an imported file, constructor
 of a child or of a referring object) stores attributes on them (names unknown to the
 grammar, attributes of other rules, `_tx_`-like names, a grammar attribute of the
-object again, `parent` on a root object) and deletes them again (60% of the main load trees, 1..4 stores each).  The same tree is run by the Lean machine (Drivers/LoadTree.lean).
+object again, `parent` on a root object) and deletes them again (60% of the main load trees, 1..4 stores each).
+User classes may define the special methods textX's own code can trip over: __bool__ / __len__ (objects falsy while
+the model is built: always, or decided from an attribute read through the instrumented access) and a value __eq__
+without __hash__ (class traits `falsy` 30%, `eq` 15%).  The model of an immutable-root load is any immutable python
+value (`convty`: the four primitive types, str kept by textX, tuple, namedtuple, frozenset, Decimal, date, bytes,
+complex, Fraction, range, falsy ones of both kinds, list, dict).  The same tree is run by the Lean machine (Drivers/LoadTree.lean).
 """
 from harness import loadtree as lt
 from harness.core import Check
@@ -83,8 +88,11 @@ class Prop(Check):
     DRIVER = "Drivers/LoadTree.lean"
     QUICK_CASES = 420
     THOROUGH_CASES = 7000
-    RULE = ("load trees of 1..5 files x user classes (8 variants, none, subsets of 5 rules) x complete fault table "
-            "(14 entries, cycled) x nested loads from user code (40%) x immutable root (6%) x global repository (10%) x "
+    RULE = ("load trees of 1..5 files x user classes (8 variants, none, subsets of 5 rules; 30% of the classes define "
+            "__bool__ -> False / __len__ -> 0 / __bool__ from an attribute, 15% a value __eq__ without __hash__) x complete fault table "
+            "(14 entries, cycled) x nested loads from user code (40%) x immutable root (6%; the value is one of 21 kinds: "
+            "int/str/float/bool/None->str, tuple, namedtuple, frozenset, Decimal, date, bytes, complex, Fraction, range, "
+            "falsy (), False, 0.0, frozenset(), Decimal(0), builtin list / dict) x global repository (10%) x "
             "metamodel without object processors (20%) x "
             "stores / deletions of user code on objects under construction (60% of the main trees, 40% of the nested: "
             "1..4 stores from callback / scope provider / imported model processor / another constructor; names: "
@@ -219,9 +227,35 @@ class Prop(Check):
                 k = f"{c.get('fault', ['corpus'])[0]}:{'ok' if o['ok'] else 'fail'}"
                 dist[k] = dist.get(k, 0) + 1
         variants = {}
+        traits = {"classes": 0, "cases_with_falsy_container_holding_a_reference": 0, "immutable_root_type": {}}
         for c in cases:
             for cl in c["classes"]:
                 variants[cl["variant"]] = variants.get(cl["variant"], 0) + 1
+                traits["classes"] += 1
+                for t in ("falsy", "eq"):
+                    if cl.get(t):
+                        traits[f"{t}:{cl[t]}"] = traits.get(f"{t}:{cl[t]}", 0) + 1
+            n0 = c["loads"][0]
+            if n0.get("immut"):
+                ty = n0.get("convty", "int")
+                traits["immutable_root_type"][ty] = traits["immutable_root_type"].get(ty, 0) + 1
+            hit = False
+            for n in lt.walk_nodes(n0):
+                if n.get("immut"):
+                    continue
+
+                def falsy(rule, n=n):
+                    cid = lt.node_class(c, n, rule)
+                    return cid is not None and c["classes"][cid].get("falsy") in ("bool", "len")
+
+                def has_ref(objs):
+                    return any(o["k"] == "ref" for o in lt.walk_objs(objs))
+
+                if falsy("Model") and has_ref(n["objs"]):
+                    hit = True
+                if falsy("Box") and any(o["k"] == "box" and has_ref(o["kids"]) for o in lt.walk_objs(n["objs"])):
+                    hit = True
+            traits["cases_with_falsy_container_holding_a_reference"] += hit
         ann = {"cases_with_stores": 0, "applied": 0, "not_applied": 0, "by_hook": {}, "by_name": {},
                "constructor_calls_after_a_store_on_the_object": 0, "of_these_own_attribute_again": 0, "with_deletion": 0}
         for c, o in zip(cases, obs):
@@ -247,7 +281,7 @@ class Prop(Check):
                     ann["with_deletion"] += any(op == "del" for op, _, _ in st)
         multi = sum(1 for c in cases if len(list(lt.walk_nodes(c["loads"][0]))) > 1)
         nested = sum(1 for c in cases if len(c["loads"]) > 1)
-        return {"distribution": {"fault:outcome": dist, "class_variants": variants, "multi_file": multi,
+        return {"distribution": {"fault:outcome": dist, "class_variants": variants, "class_traits": traits, "multi_file": multi,
                                  "stores_by_user_code": ann,
                                  "with_nested_loads": nested,
                                  "max_counter_seen": max([s[0] for o in obs if isinstance(o, dict) for e in o.get("events", []) for s in e[3]] or [0])}}
